@@ -917,13 +917,35 @@ theorem src_attack_eq_spec (a d x : K) (xs : List K) (n : Nat) :
   · exact attackG_field_strm a d x xs n
   · rfl
 
+/-- **C19.src.10** `ones` / `zeros` as regenerated from the source (the optional duration, the endless
+`while True` that the finite loop is never reached after) are `constG` with the yielded constant. -/
+theorem src_ones_is_model {α : Type} (o : NumOps α) : ALV.Gen.C19.ones o = constG o o.one := by
+  funext dur n; exact gen_ones o dur n
+
+theorem src_zeros_is_model {α : Type} (o : NumOps α) : ALV.Gen.C19.zeros o = constG o o.zero := by
+  funext dur n; exact gen_zeros o dur n
+
+/-- **C19.src.11** `impulse` as regenerated from the source is `impulseG`, for items of any type. -/
+theorem src_impulse_is_model {α β : Type} (o : NumOps α) :
+    (ALV.Gen.C19.impulse o : Option α → β → β → Nat → Run β) = impulseG o := by
+  funext dur one zero n; exact gen_impulse o dur one zero n
+
+-- the regenerated definitions run: an endless / a rounded / a refused duration
+example : ALV.Gen.C19.ones (fieldOps : NumOps Rat) none 3 = ([1, 1, 1], none) ∧
+    ALV.Gen.C19.zeros (fieldOps : NumOps Rat) (some (5/2)) 9 = ([0, 0, 0], none) ∧
+    ALV.Gen.C19.impulse (fieldOps : NumOps Rat) (some (5/2)) 'a' 'b' 9 = (['a', 'b', 'b'], none) ∧
+    ALV.Gen.C19.impulse (fieldOps : NumOps Rat) (some (1/4)) 'a' 'b' 9 = ([], none) ∧
+    ALV.Gen.C19.impulse (fieldOps : NumOps Rat) none 'a' 'b' 2 = (['a', 'b'], none) := by decide +kernel
+
 /-- **C19.src.9** the defaults and decorators as written in the source are the documented ones. -/
 theorem src_defaults_are_documented :
     ALV.Gen.C19.defaults = [("modulo_counter", "start", "0.0"), ("modulo_counter", "modulo", "256.0"),
       ("modulo_counter", "step", "1.0"), ("line", "begin", "0.0"), ("line", "end", "1.0"),
-      ("line", "finish", "False")] ∧
+      ("line", "finish", "False"), ("ones", "dur", "None"), ("zeros", "dur", "None"), ("impulse", "dur", "None"),
+      ("impulse", "one", "1.0"), ("impulse", "zero", "0.0")] ∧
     ALV.Gen.C19.decorators = [("modulo_counter", ["tostream"]), ("line", ["tostream"]), ("fadein", []),
-      ("fadeout", []), ("attack", []), ("adsr", ["tostream"])] := by decide
+      ("fadeout", []), ("attack", []), ("adsr", ["tostream"]), ("ones", ["tostream"]), ("zeros", ["tostream"]),
+      ("impulse", ["tostream"])] := by decide
 
 -- the regenerated definitions run: fast path with the batch boundary crossed, start a stream, …
 example : ALV.Gen.C19.modulo_counter (fieldOps : NumOps Rat) (.num 1) (.num 5) (.num 2) 6 = ([1, 3, 0, 2, 4, 1], none) ∧
